@@ -638,11 +638,11 @@ pub fn parsers() -> Vec<Parser> {
     )* } }
     strat!(0, 1, 2, 3, 4, 5, 6);
     v.extend(vec![
-        P!("SliceDataInput/read_length_prefixed_bytes", 50, false, true, p_sdi_lp_bytes, seeds_lp),
+        P!("SliceDataInput/read_length_prefixed_bytes", 0, false, true, p_sdi_lp_bytes, seeds_lp),
         P!("SliceDataInput/read_length_prefixed_string", 0, false, true, p_sdi_lp_string, seeds_lp),
-        P!("SliceDataInput/var_int+skip+read_u8", 51, false, true, p_sdi_skip, seeds_sdi_skip),
+        P!("SliceDataInput/var_int+skip+read_u8", 0, false, true, p_sdi_skip, seeds_sdi_skip),
         P!("SliceDataInput/fixed_width_reads", 0, false, true, p_sdi_fixed, seeds_sdi_fixed),
-        P!("SerializableType/Vec<u32>", 52, false, true, p_ser_vec_u32, seeds_ser_vec_u32),
+        P!("SerializableType/Vec<u32>", 0, false, true, p_ser_vec_u32, seeds_ser_vec_u32),
         P!("SerializableType/Vec<Vec<String>>", 0, false, true, p_ser_vecvec, seeds_ser_vecvec),
         P!("ComplexTypeSerializer/tuple/metadata", 0, false, false, p_cx_tuple::<true>, seeds_cx_tuple::<true>),
         P!("ComplexTypeSerializer/tuple/fast", 0, false, true, p_cx_tuple::<false>, seeds_cx_tuple::<false>),
@@ -659,7 +659,7 @@ pub fn parsers() -> Vec<Parser> {
         P!("SmartPtrSerializer/Rc<String>", 0, false, true, p_sp_rc, seeds_sp_rc),
         P!("SmartPtrSerializer/Arc<Vec<u64>>", 0, false, true, p_sp_arc, seeds_sp_arc),
         P!("SmartPtrSerializer/Option<Box<String>>", 0, false, true, p_sp_optbox, seeds_sp_optbox),
-        P!("HuffmanTree::deserialize", 60, false, true, p_huff_tree, seeds_huff_tree),
+        P!("HuffmanTree::deserialize", 0, false, true, p_huff_tree, seeds_huff_tree),
         P!("HuffmanDecoder::decode", 0, true, false, p_huff_decode, seeds_huff_decode),
         P!("HuffmanTree::deserialize+decode", 0, true, false, p_huff_tree_then_decode, seeds_huff_tree_then_decode),
         P!("ContextualHuffmanEncoder::deserialize", 0, false, false, p_ctx_deser, seeds_ctx_deser),
